@@ -4,7 +4,7 @@ from ..core.model import AnalysisError, unparse, dotted, walk_no_defs
 from ..core.consts import Folder
 from ..core.flow import Flow
 from ..core.callgraph import dict_values_as_methods
-from ..core.escape import Escapes, unguarded_constant_subscripts
+from ..core.escape import Escapes, unguarded_constant_subscripts, unguarded_variable_subscripts
 from ..core.layout import Extractor, split_messages
 from ..core import match as M
 from .c11 import build_graph
@@ -205,10 +205,11 @@ def run(prog, chk):
         if f.module.name in ("transport", "auth_handler", "channel", "packet", "kex_gss") or f.module.name.startswith("kex_"):
             if f.qual not in idx_cache:
                 try:
-                    idx_cache[f.qual] = unguarded_constant_subscripts(prog, f)
+                    idx_cache[f.qual] = [(x, why) for (x, need, have, why) in unguarded_constant_subscripts(prog, f)] + \
+                        list(unguarded_variable_subscripts(prog, f))
                 except AnalysisError:
                     idx_cache[f.qual] = []
-            for (x, need, have, why) in idx_cache[f.qual]:
+            for (x, why) in idx_cache[f.qual]:
                 out.append((x, "IndexError", why))
         return out
 
